@@ -83,7 +83,8 @@ pub fn decode_mutations(bytes: &[Word]) -> Result<Vec<Mutation>, MutationDecodeE
     let len: usize = bytes[0].try_into().unwrap_or(usize::MAX);
 
     // FIXME: Do a max size check to avoid a DoS attack that allocates too much memory.
-    let mut mutations = Vec::with_capacity(len);
+    // Every mutation takes at least two words, never pre-allocate more than the input can hold.
+    let mut mutations = Vec::with_capacity(len.min(bytes.len() / 2));
     if len == 0 {
         return Ok(mutations);
     }
